@@ -134,7 +134,8 @@ def run_in_module(doc, stmts, enabled, idx, tmp):
     from xdoctest import core
     names = sorted({BOUND[s.kind][0] % s.k for s in stmts if s.kind in BOUND})
     globs = '\n'.join("%s = 'MODULE'" % n for n in names)
-    body = '\n'.join('    ' + l if l else l for l in doc.split('\n'))
+    # (tabs are expanded first: prefixing a tab-indented line with four blanks would change its column)
+    body = '\n'.join('    ' + l if l else l for l in doc.expandtabs().split('\n'))
     src = MODULE_TMPL % (gendoc.PRELUDE, globs, body)
     path = os.path.join(tmp, 'xdverif_c01_m%d.py' % idx)
     open(path, 'w').write(src)
@@ -198,8 +199,13 @@ def gen_cases(ctx):
         text, wants = gendoc.render_layout(rng, stmts, google=False)
         lines = text.split('\n')
         # tabs instead of 8 leading blanks on some lines; inline +SKIP on some statements without a want
-        if rng.random() < 0.15:
+        r = rng.random()
+        if r < 0.1:
             lines = [('\t' + l[8:]) if l.startswith(' ' * 8) else l for l in lines]
+        elif r < 0.25:
+            # the whole docstring indented by 8 columns, the indentation of some lines written as one tab
+            lines = [(' ' * 8 + l) if l else l for l in lines]
+            lines = [('\t' + l[8:]) if l and rng.random() < 0.5 else l for l in lines]
         doc = '\n'.join(lines)
         cases.append((doc, stmts, enabled, wants))
     # disabled statements: a program with a block SKIP in the middle
